@@ -18,6 +18,11 @@ CONFIG = {
               "C04_card_of_feature_pd (single row); C04_countsA_is_MCA. No side condition on And child lists is needed (a child "
               "occurring twice below a decomposable And has no variables, its derivative is never read). All three are closed under "
               "the global context. Model tied to the Rust by the correspondence + truth-table oracle on every table; "
-              "the printed ratio is glue, compared to 1e-9 relative (not covered by the theorem)",
-    "assumptions": ["ratio compared numerically (never as text)"],
+              "C04_ratio_exact: the ratio column (Model/Ratio.v = BigRational::from((cardinality, rc)) = Ratio::new) is, for every "
+              "satisfiable model, the exact fraction a/b in lowest terms with 0 < b, a * MC = MCA [f] * b, 0 <= a <= b, and the call "
+              "does not panic; C04_ratio_panics_iff_unsat: on a model without models (outside the input space) and n > 0 the call "
+              "panics (zero denominator; reproduced on the code). The extracted fraction is compared with every printed ratio "
+              "(1e-9 relative, DIFF table-ratio); only the f64 rounding and the '{:.10e}' text are glue",
+    "assumptions": ["ratio compared numerically (never as text)",
+                    "0 < MC for the ratio column (the C01 input space: satisfiable formulas); MC = 0 panics in num-rational"],
 }
